@@ -155,11 +155,15 @@ def check_property(pid, tier, seed, shared=None):
     with open(LOCK) as f:
         lock = json.load(f)['obligations']
     skipped = extra.get('skipped', [])
+    skipped_hit = []
     if skipped:
         # obligations of a left-out function are in the lock table but not in this run's table: which properties do they carry?
-        hit = sorted({oid.split('/')[0] for oid, tags in lock.items() if pid in tags and oid.split('/')[0] in skipped})
-        if hit:
-            print('UNDECIDED: %s has obligations in %s, whose body is outside the verifier subset in this tree' % (pid, hit))
+        skipped_hit = sorted({oid.split('/')[0] for oid, tags in lock.items() if pid in tags and oid.split('/')[0] in skipped})
+        # a clause of this property that fails in a function that *was* verified (against the left-out function's contract) is a violation
+        # all the same; only without one is the property undecided
+        any_failed = any(pid in G.obligations[o]['tags'] and G.obligations[o]['kind'] != 'proof-hint' for o in failed if o in G.obligations)
+        if skipped_hit and not any_failed:
+            print('UNDECIDED: %s has obligations in %s, whose body is outside the verifier subset in this tree' % (pid, skipped_hit))
             return 2
     mine = {oid: o for oid, o in G.obligations.items() if pid in o['tags']}
     mine_contract = {oid for oid, o in mine.items() if o['kind'] != 'call-requires' and o.get('origin') not in ('R12', 'auto-monotone-loop', 'auto-frame-loop')}
@@ -167,6 +171,8 @@ def check_property(pid, tier, seed, shared=None):
     if not mine:
         print('UNDECIDED: no obligation carries property %s (vacuous check)' % pid)
         return 2
+    if skipped_hit:
+        locked = {o for o in locked if o.split('/')[0] not in skipped}
     if mine_contract != locked:
         print('UNDECIDED: contract obligations of %s differ from obligations.lock (run ./check lock): +%s -%s' % (
             pid, sorted(mine_contract - locked)[:5], sorted(locked - mine_contract)[:5]))
